@@ -320,6 +320,51 @@ theorem tblSet_get (t : List (Int × Name)) (k : Int) (v : Name) :
       simpa using h x hx
     simp [this]
 
+/-! ## Lifting to whole `insert_block` calls (model), plain predecessors -/
+
+theorem renameInExiting_plain (H : Hier) (f : Nat) (blk : Blk) (old new : Name)
+    (h : blk.isRegion = false) : renameInExiting H (f + 1) blk old new = .ok H := by
+  simp [renameInExiting, h]
+
+/-- For a predecessor that is not a region, the renaming pass leaves the hierarchy alone. -/
+theorem ren_plain (new : Name) (blk : Blk) (hreg : blk.isRegion = false) :
+    ∀ (ss jt : List Name) (H : Hier), insertBlock.ren new blk H jt ss = .ok H := by
+  intro ss
+  induction ss with
+  | nil => intro jt H; simp [insertBlock.ren]
+  | cons s ss ih =>
+    intro jt H
+    unfold insertBlock.ren
+    split
+    · exact ih jt H
+    · simp only [renameInExiting_plain H H.length blk s new hreg, bind, Except.bind]
+      split <;> exact ih _ H
+
+/-- what `insert_block` makes of a plain predecessor's successor tuple -/
+def newTargets (new : Name) (succs : List Name) (blk : Blk) : List Name :=
+  if succs.isEmpty then blk.jts ++ [new]
+  else rewire new blk.jts (succs.filter fun s => !blk.bes.contains s)
+
+/-- **`insert_block` with one plain predecessor.** The model's result is: the new block with
+    successors exactly `S` is added; the predecessor is re-inserted with its successor tuple
+    rewritten by `rewire` (so `rewire_frame / rewire_rerouted / rewire_new_once` describe its
+    arcs), every other field untouched; nothing else changes. -/
+theorem insertBlock_single (H : Hier) (c : Name) (kind : BKind) (new p : Name) (succs : List Name)
+    (blk : Blk) (H1 : Hier)
+    (hpop : popIn "insert_block" (putIn H { cont := c, name := new, kind := kind, jts := succs }) c p
+      = .ok (blk, H1))
+    (hreg : blk.isRegion = false) (hbr : blk.kind.isBranching = false) :
+    insertBlock H c kind new [p] succs =
+      .ok (putIn H1 { blk with jts := newTargets new succs blk }) := by
+  unfold insertBlock
+  simp only [List.foldlM_cons, List.foldlM_nil, hpop, bind, Except.bind, pure, Except.pure]
+  have hrep : ∀ jt', replaceJts blk jt' = .ok { blk with jts := jt' } := by
+    intro jt'; simp [replaceJts, hbr]
+  by_cases he : succs.isEmpty = true
+  · simp [he, hrep, newTargets]
+  · have he' : succs.isEmpty = false := by simpa using he
+    simp only [he', Bool.false_eq_true, if_false, ren_plain new blk hreg, hrep, newTargets]
+
 /-! Non-vacuity / examples (kernel evaluation of the model). -/
 example : rewire "n" ["a", "x", "b"] ["b", "a"] = ["x", "n"] := by decide
 example : rewire "n" ["a", "x"] ["q"] = ["a", "x"] := by decide
